@@ -1,10 +1,12 @@
 (* C06 - lemmas that need no history invariant: service from the cache, database
    errors, store errors, TTLs, index / primary expiry. *)
 From Coq Require Import List ZArith Bool NArith Lia.
-From GZ Require Import C06.Model C06.Proofs.
+From GZ Require Import C06.Model C06.Proofs C06.GenProofs.
 Import ListNotations.
 Open Scope Z_scope.
 
+Ltac unf := unfold query_index_mid, query_index, take_mid, take_primary, load_index, load_primary,
+              get_primary, exec, set_primary.
 Ltac split_step :=
   repeat match goal with
          | |- context [if ?b then _ else _] => destruct b eqn:?
@@ -44,40 +46,44 @@ Proof.
 Qed.
 
 (* ------------------------------------------------------------------ database errors *)
-Lemma take_primary_dberr c s p t :
-  oret (snd (take_primary c s p t)) = RDbErr -> fst (take_primary c s p t) = s.
-Proof. unfold take_primary. split_step; cbn; intro H; try discriminate; reflexivity. Qed.
+Definition is_mid (o : op) : bool :=
+  match o with OTakeMid _ _ _ | OQriMid _ _ _ => true | _ => false end.
+
+(* the state is untouched - up to the outage that a mid-operation fault op injects itself *)
+Lemma dberr_keeps_state_gen c s o :
+  oret (snd (step c s o)) = RDbErr ->
+  fst (step c s o) = s \/ (is_mid o = true /\ exists n, fst (step c s o) = fail_node s n).
+Proof.
+  destruct o; cbn [step is_mid]; unf;
+    try (split_step; cbn; intro H; try discriminate; left; reflexivity);
+    try (cbn; discriminate).
+  - split_step; cbn; intro H; try discriminate; try (left; reflexivity); right; split; auto; eexists; reflexivity.
+  - split_step; cbn; intro H; try discriminate; try (left; reflexivity); right; split; auto; eexists; reflexivity.
+Qed.
 
 Lemma dberr_keeps_state c s o :
-  oret (snd (step c s o)) = RDbErr -> fst (step c s o) = s.
+  is_mid o = false -> oret (snd (step c s o)) = RDbErr -> fst (step c s o) = s.
 Proof.
-  destruct o; cbn [step].
-  - apply take_primary_dberr.
-  - unfold query_index.
-    destruct (key_down c s (KU u)); [cbn; discriminate|].
-    destruct (lookup (clock s) (cache s) (KU u)) as [[[a b|q|] x]|]; try (cbn; discriminate).
-    + apply take_primary_dberr.
-    + split_step; cbn; intro H; try discriminate; reflexivity.
-  - unfold get_primary. split_step; cbn; intro H; try discriminate; reflexivity.
-  - unfold exec. split_step; cbn; intro H; try discriminate; reflexivity.
-  - unfold set_primary. split_step; cbn; intro H; try discriminate; reflexivity.
-  - unfold set_primary. split_step; cbn; intro H; try discriminate; reflexivity.
-  - cbn. discriminate.
-  - cbn. discriminate.
-  - cbn. discriminate.
-  - cbn. discriminate.
-  - cbn. discriminate.
+  intros M H. destruct (dberr_keeps_state_gen c s o H) as [G|[G _]]; auto. congruence.
+Qed.
+
+Lemma dberr_keeps_data c s o :
+  oret (snd (step c s o)) = RDbErr ->
+  let s' := fst (step c s o) in
+  db s' = db s /\ cache s' = cache s /\ pending s' = pending s /\ lost s' = lost s /\ clock s' = clock s.
+Proof.
+  intro H. destruct (dberr_keeps_state_gen c s o H) as [G|[_ [n G]]]; cbn zeta; rewrite G; auto.
 Qed.
 
 Lemma dberr_returned_take c s p t :
   dbFault s = true -> key_down c s (KP p) = false -> lookup (clock s) (cache s) (KP p) = None ->
   step c s (OTake p t) = (s, mkObs RDbErr 0 1).
-Proof. intros F K L. cbn [step]. unfold take_primary. rewrite K, L, F. reflexivity. Qed.
+Proof. intros F K L. cbn [step]. unfold take_primary, load_primary. rewrite K, L, F. reflexivity. Qed.
 
 Lemma dberr_returned_qri c s u t :
   dbFault s = true -> key_down c s (KU u) = false -> lookup (clock s) (cache s) (KU u) = None ->
   step c s (OQri u t) = (s, mkObs RDbErr 1 0).
-Proof. intros F K L. cbn [step]. unfold query_index. rewrite K, L, F. reflexivity. Qed.
+Proof. intros F K L. cbn [step]. unfold query_index, load_index. rewrite K, L, F. reflexivity. Qed.
 
 Lemma dberr_returned_exec c s p w keys :
   dbFault s = true -> step c s (OExec p w keys) = (s, mkObs RDbErr 0 0).
@@ -108,35 +114,27 @@ Proof. intro K. cbn [step]. rewrite K. reflexivity. Qed.
 Lemma cerr_setex c s p u v d : key_down c s (KP p) = true -> step c s (OSetEx p u v d) = (s, mkObs RCErr 0 0).
 Proof. intro K. cbn [step]. unfold set_primary. rewrite K. reflexivity. Qed.
 
-(* a store error is only ever reported while some node is down *)
-Lemma cerr_only_when_down c s o : oret (snd (step c s o)) = RCErr -> cfault s <> [].
+(* a store error is only ever reported while some node is down (for the operations that do
+   not inject an outage themselves) *)
+Lemma cerr_only_when_down c s o : is_mid o = false -> oret (snd (step c s o)) = RCErr -> cfault s <> [].
 Proof.
   assert (A : forall k, key_down c s k = true -> cfault s <> []).
   { intros k. unfold key_down, node_down. destruct (cfault s); cbn; [discriminate | intros _ E; discriminate]. }
-  assert (T : forall p t, oret (snd (take_primary c s p t)) = RCErr -> cfault s <> []).
-  { intros p t. unfold take_primary. destruct (key_down c s (KP p)) eqn:K; [intros _; eapply A; eauto|].
-    split_step; cbn; discriminate. }
-  destruct o; cbn [step].
-  - apply T.
-  - unfold query_index. destruct (key_down c s (KU u)) eqn:K; [intros _; eapply A; eauto|].
+  intros M. destruct o; cbn [is_mid] in M; try discriminate; cbn [step]; unf;
+    try (cbn; discriminate).
+  - destruct (key_down c s (KP p)) eqn:K; [intros _; eapply A; eauto|]. split_step; cbn; discriminate.
+  - destruct (key_down c s (KU u)) eqn:K; [intros _; eapply A; eauto|].
     destruct (lookup (clock s) (cache s) (KU u)) as [[[a b|q|] x]|]; try (cbn; discriminate).
-    + apply T.
+    + destruct (key_down c s (KP q)) eqn:K'; [intros _; eapply A; eauto|]. split_step; cbn; discriminate.
     + destruct (dbFault s); [cbn; discriminate|].
       destruct (db_by_u u (db s)) as [[p [u' v]]|].
       * destruct (key_down c s (KP p)) eqn:K'; [intros _; eapply A; eauto|].
         destruct (ttl_ok (expiry_of c) t); cbn; discriminate.
       * destruct (ttl_ok (nf_of c) t); cbn; discriminate.
-  - unfold get_primary. destruct (key_down c s (KP p)) eqn:K; [intros _; eapply A; eauto|].
-    split_step; cbn; discriminate.
-  - unfold exec. split_step; cbn; discriminate.
-  - destruct (key_down c s (KP p)) eqn:K; [intros _; eapply A; eauto|].
-    unfold set_primary. rewrite K. split_step; cbn; discriminate.
-  - unfold set_primary. destruct (key_down c s (KP p)) eqn:K; [intros _; eapply A; eauto|]. cbn; discriminate.
-  - cbn; discriminate.
-  - cbn; discriminate.
-  - cbn; discriminate.
-  - cbn; discriminate.
-  - cbn; discriminate.
+  - destruct (key_down c s (KP p)) eqn:K; [intros _; eapply A; eauto|]. split_step; cbn; discriminate.
+  - split_step; cbn; discriminate.
+  - destruct (key_down c s (KP p)) eqn:K; [intros _; eapply A; eauto|]. split_step; cbn; discriminate.
+  - destruct (key_down c s (KP p)) eqn:K; [intros _; eapply A; eauto|]. cbn; discriminate.
 Qed.
 
 (* ------------------------------------------------------------------ TTLs *)
@@ -152,8 +150,12 @@ Proof.
   intros Hb H. unfold ttl_ok in H. apply andb_true_iff in H. destruct H as [H1 H2].
   apply Z.leb_le in H1. apply Z.leb_le in H2. split; auto.
   assert (1 <= ttl_lo b); [|lia].
-  unfold ttl_lo. apply cdiv_ge1. apply Z.div_le_lower_bound; lia.
+  destruct deviation_range as (Dn & Dd & D2).
+  unfold ttl_lo. apply cdiv_ge1. apply Z.div_le_lower_bound; [exact Dd|]. nia.
 Qed.
+
+Lemma safe_gap_pos : 0 < safe_gap.
+Proof. apply gap_whole_seconds. Qed.
 
 Lemma exp_of_finite now t : 1 <= t -> exp_of now t = Some (now + 1000 * t).
 Proof. intro H. unfold exp_of. destruct (t <=? 0) eqn:E; auto. apply Z.leb_le in E. lia. Qed.
@@ -164,6 +166,9 @@ Definition ttl_src (c : config) (o : op) (t : Z) : Prop :=
   | OTake _ _ => ttl_ok (expiry_of c) t = true \/ ttl_ok (nf_of c) t = true
   | OQri _ _ => ttl_ok (expiry_of c) t = true \/ ttl_ok (nf_of c) t = true
                 \/ ttl_ok (expiry_of c) (t - safe_gap) = true
+  | OTakeMid _ _ _ => ttl_ok (expiry_of c) t = true \/ ttl_ok (nf_of c) t = true
+  | OQriMid _ _ _ => ttl_ok (expiry_of c) t = true \/ ttl_ok (nf_of c) t = true
+                     \/ ttl_ok (expiry_of c) (t - safe_gap) = true
   | OSet _ _ _ _ => ttl_ok (expiry_of c) t = true
   | OSetEx _ _ _ d => t = cdiv d sec
   | _ => False
@@ -185,6 +190,22 @@ Proof.
   - rewrite find_put_other in H by exact E. apply W. exact H.
 Qed.
 
+Lemma load_primary_written c s s0 p t o :
+  cache s0 = cache s -> clock s0 = clock s ->
+  (ttl_ok (expiry_of c) t = true -> ttl_src c o t) -> (ttl_ok (nf_of c) t = true -> ttl_src c o t) ->
+  written c s o (cache (fst (load_primary c s0 p t))).
+Proof.
+  intros Ec Ek A B. unfold load_primary.
+  destruct (dbFault s0); [cbn [fst]; rewrite Ec; apply written_same|].
+  destruct (db_get p (db s0)) as [[u v]|]; (destruct (key_down c s0 (KP p)); [cbn [fst]; rewrite Ec; apply written_same|]).
+  - destruct (ttl_ok (expiry_of c) t) eqn:E; [|cbn [fst]; rewrite Ec; apply written_same].
+    cbn [fst set_cache cache]. rewrite Ec, Ek.
+    eapply written_put; [apply written_same | reflexivity | auto].
+  - destruct (ttl_ok (nf_of c) t) eqn:E; [|cbn [fst]; rewrite Ec; apply written_same].
+    cbn [fst set_cache cache]. rewrite Ec, Ek.
+    eapply written_put; [apply written_same | reflexivity | auto].
+Qed.
+
 Lemma take_primary_written c s p t o :
   (ttl_ok (expiry_of c) t = true -> ttl_src c o t) -> (ttl_ok (nf_of c) t = true -> ttl_src c o t) ->
   written c s o (cache (fst (take_primary c s p t))).
@@ -192,12 +213,39 @@ Proof.
   intros A B. unfold take_primary.
   destruct (key_down c s (KP p)); [apply written_same|].
   destruct (lookup (clock s) (cache s) (KP p)) as [[[u v|q|] x]|]; try apply written_same.
-  destruct (dbFault s); [apply written_same|].
-  destruct (db_get p (db s)) as [[u v]|].
-  - destruct (ttl_ok (expiry_of c) t) eqn:E; [|apply written_same].
-    cbn [fst set_cache cache]. eapply written_put; [apply written_same | reflexivity | auto].
-  - destruct (ttl_ok (nf_of c) t) eqn:E; [|apply written_same].
-    cbn [fst set_cache cache]. eapply written_put; [apply written_same | reflexivity | auto].
+  apply load_primary_written; auto.
+Qed.
+
+Lemma take_mid_written c s p t n o :
+  (ttl_ok (expiry_of c) t = true -> ttl_src c o t) -> (ttl_ok (nf_of c) t = true -> ttl_src c o t) ->
+  written c s o (cache (fst (take_mid c s p t n))).
+Proof.
+  intros A B. unfold take_mid.
+  destruct (key_down c s (KP p)); [apply written_same|].
+  destruct (lookup (clock s) (cache s) (KP p)).
+  - apply take_primary_written; auto.
+  - apply load_primary_written; auto.
+Qed.
+
+Lemma load_index_written c s s0 u t o :
+  cache s0 = cache s -> clock s0 = clock s ->
+  (ttl_ok (expiry_of c) t = true -> ttl_src c o t /\ ttl_src c o (t + safe_gap)) ->
+  (ttl_ok (nf_of c) t = true -> ttl_src c o t) ->
+  written c s o (cache (fst (load_index c s0 u t))).
+Proof.
+  intros Ec Ek A B. unfold load_index.
+  destruct (dbFault s0); [cbn [fst]; rewrite Ec; apply written_same|].
+  destruct (db_by_u u (db s0)) as [[p [u' v]]|].
+  - destruct (key_down c s0 (KP p)); [cbn [fst]; rewrite Ec; apply written_same|].
+    destruct (ttl_ok (expiry_of c) t) eqn:E; [|cbn [fst]; rewrite Ec; apply written_same].
+    destruct (A eq_refl) as [A1 A2].
+    destruct (key_down c s0 (KU u)); cbn [fst set_cache cache]; rewrite Ec, Ek.
+    + eapply written_put; [apply written_same | reflexivity | exact A2].
+    + eapply written_put; [eapply written_put; [apply written_same | reflexivity | exact A2] | reflexivity | exact A1].
+  - destruct (key_down c s0 (KU u)); [cbn [fst]; rewrite Ec; apply written_same|].
+    destruct (ttl_ok (nf_of c) t) eqn:E; [|cbn [fst]; rewrite Ec; apply written_same].
+    cbn [fst set_cache cache]. rewrite Ec, Ek.
+    eapply written_put; [apply written_same | reflexivity | auto].
 Qed.
 
 Lemma written_sub c s o d :
@@ -218,22 +266,15 @@ Qed.
 
 Lemma step_written c s o : written c s o (cache (fst (step c s o))).
 Proof.
+  assert (G : forall t, ttl_ok (expiry_of c) t = true -> ttl_ok (expiry_of c) (t + safe_gap - safe_gap) = true).
+  { intros t E. replace (t + safe_gap - safe_gap) with t by lia. exact E. }
   destruct o; cbn [step].
   - apply take_primary_written; cbn; auto.
   - unfold query_index.
     destruct (key_down c s (KU u)); [apply written_same|].
     destruct (lookup (clock s) (cache s) (KU u)) as [[[a b|q|] x]|]; try apply written_same.
     + apply take_primary_written; cbn; auto.
-    + destruct (dbFault s); [apply written_same|].
-      destruct (db_by_u u (db s)) as [[p [u' v]]|].
-      * destruct (key_down c s (KP p)); [apply written_same|].
-        destruct (ttl_ok (expiry_of c) t) eqn:E; [|apply written_same].
-        cbn [fst set_cache cache].
-        eapply written_put; [eapply written_put; [apply written_same | reflexivity |] | reflexivity |].
-        -- cbn. right. right. replace (t + safe_gap - safe_gap) with t by lia. exact E.
-        -- cbn. auto.
-      * destruct (ttl_ok (nf_of c) t) eqn:E; [|apply written_same].
-        cbn [fst set_cache cache]. eapply written_put; [apply written_same | reflexivity | cbn; auto].
+    + apply load_index_written; cbn; auto.
   - unfold get_primary. destruct (key_down c s (KP p)); [apply written_same|].
     destruct (lookup (clock s) (cache s) (KP p)) as [[[a b|q|] x]|]; apply written_same.
   - unfold exec. destruct (dbFault s); [apply written_same|].
@@ -252,13 +293,19 @@ Proof.
   - cbn [fst cache]. apply written_same.
   - cbn [fst cache]. apply written_same.
   - cbn [fst]. apply written_sub. apply iter_tick_sub.
+  - apply take_mid_written; cbn; auto.
+  - unfold query_index_mid.
+    destruct (key_down c s (KU u)); [apply written_same|].
+    destruct (lookup (clock s) (cache s) (KU u)) as [[[a b|q|] x]|]; try apply written_same.
+    + apply take_mid_written; cbn; auto.
+    + apply load_index_written; cbn; auto.
 Qed.
 
 (* the longest TTL (seconds) an operation may hand to the store *)
 Definition max_ttl (c : config) (o : op) : Z :=
   match o with
   | OSetEx _ _ _ d => cdiv d sec
-  | OQri _ _ => Z.max (ttl_hi (expiry_of c) + safe_gap) (ttl_hi (nf_of c))
+  | OQri _ _ | OQriMid _ _ _ => Z.max (ttl_hi (expiry_of c) + safe_gap) (ttl_hi (nf_of c))
   | _ => Z.max (ttl_hi (expiry_of c)) (ttl_hi (nf_of c))
   end.
 
@@ -268,11 +315,14 @@ Definition requested_positive (o : op) : Prop :=
 Lemma ttl_src_bounds c o t :
   2 <= expiry_of c -> 2 <= nf_of c -> requested_positive o -> ttl_src c o t -> 1 <= t <= max_ttl c o.
 Proof.
-  intros He Hn Hr H. destruct o; cbn in *; try contradiction.
+  intros He Hn Hr H. pose proof safe_gap_pos as Gp.
+  destruct o; cbn [ttl_src max_ttl requested_positive] in *; try contradiction.
   - destruct H as [H|H]; apply ttl_ok_bounds in H; auto; lia.
-  - destruct H as [H|[H|H]]; apply ttl_ok_bounds in H; auto; unfold safe_gap in *; lia.
+  - destruct H as [H|[H|H]]; apply ttl_ok_bounds in H; auto; lia.
   - apply ttl_ok_bounds in H; auto; lia.
   - subst. split; [|lia]. apply cdiv_ge1. lia.
+  - destruct H as [H|H]; apply ttl_ok_bounds in H; auto; lia.
+  - destruct H as [H|[H|H]]; apply ttl_ok_bounds in H; auto; lia.
 Qed.
 
 Lemma step_ttl c s o k e :
@@ -307,12 +357,13 @@ Lemma qri_load_writes_pair c s u t p u' v :
   ttl_ok (expiry_of c) t = true.
 Proof.
   cbn [step]. unfold query_index.
-  destruct (key_down c s (KU u)); [cbn; intro H; inversion H|].
+  destruct (key_down c s (KU u)) eqn:K; [cbn; intro H; inversion H|].
   destruct (lookup (clock s) (cache s) (KU u)) as [[[a b|q|] x]|].
   - cbn. intro H. inversion H.
-  - unfold take_primary. split_step; cbn; intro H; inversion H.
+  - unfold take_primary, load_primary. split_step; cbn; intro H; inversion H.
   - cbn. intro H. inversion H.
-  - destruct (dbFault s); [cbn; intro H; inversion H|].
+  - unfold load_index. rewrite K.
+    destruct (dbFault s); [cbn; intro H; inversion H|].
     destruct (db_by_u u (db s)) as [[p0 [u0 v0]]|].
     + destruct (key_down c s (KP p0)); [cbn; intro H; inversion H|].
       destruct (ttl_ok (expiry_of c) t); [|cbn; intro H; inversion H].
@@ -334,16 +385,17 @@ Lemma index_outlived_lemma c s u t p u' v :
        lookup now (cache s') (KU u) <> None -> lookup now (cache s') (KP p) <> None).
 Proof.
   intros He H. destruct (qri_load_writes_pair c s u t p u' v H) as (A & B & T).
+  pose proof safe_gap_pos as Gp.
   apply ttl_ok_bounds in T; auto.
-  rewrite exp_of_finite in A by lia. rewrite exp_of_finite in B by (unfold safe_gap; lia).
+  rewrite exp_of_finite in A by lia. rewrite exp_of_finite in B by lia.
   assert (Ck : clock (fst (step c s (OQri u t))) = clock s).
-  { rewrite H. cbn [fst]. clear. cbn [step]. unfold query_index, take_primary. split_step; reflexivity. }
+  { clear. cbn [step]. unf. split_step; reflexivity. }
   cbn zeta. exists (clock s + 1000 * t), (clock s + 1000 * (t + safe_gap)).
-  repeat split; auto; try (unfold safe_gap; lia).
+  repeat split; auto; try lia.
   intros now Hn. unfold lookup. rewrite A, B. unfold live. cbn [eexp].
   destruct (now <? clock s + 1000 * t) eqn:E1; [|congruence].
   apply Z.ltb_lt in E1.
-  assert (E2 : now <? clock s + 1000 * (t + safe_gap) = true) by (apply Z.ltb_lt; unfold safe_gap; lia).
+  assert (E2 : now <? clock s + 1000 * (t + safe_gap) = true) by (apply Z.ltb_lt; lia).
   rewrite E2. discriminate.
 Qed.
 
@@ -352,13 +404,7 @@ Lemma step_queries c s o :
   0 <= oqi (snd (step c s o)) /\ 0 <= oqp (snd (step c s o))
   /\ oqi (snd (step c s o)) + oqp (snd (step c s o)) <= 1.
 Proof.
-  destruct o; cbn [step]; try (cbn; lia).
-  - unfold take_primary. split_step; cbn; lia.
-  - unfold query_index, take_primary. split_step; cbn; lia.
-  - unfold get_primary. split_step; cbn; lia.
-  - unfold exec. split_step; cbn; lia.
-  - unfold set_primary. split_step; cbn; lia.
-  - unfold set_primary. split_step; cbn; lia.
+  destruct o; cbn [step]; unf; try (cbn; lia); split_step; cbn; lia.
 Qed.
 
 (* ------------------------------------------------------------------ conjunctions used by Props.v *)
@@ -380,7 +426,10 @@ Proof.
 Qed.
 
 Lemma db_error_lemma c s :
-  (forall o, oret (snd (step c s o)) = RDbErr -> fst (step c s o) = s) /\
+  (forall o, is_mid o = false -> oret (snd (step c s o)) = RDbErr -> fst (step c s o) = s) /\
+  (forall o, oret (snd (step c s o)) = RDbErr ->
+     let s' := fst (step c s o) in
+     db s' = db s /\ cache s' = cache s /\ pending s' = pending s /\ lost s' = lost s /\ clock s' = clock s) /\
   (dbFault s = true ->
      (forall p t, key_down c s (KP p) = false -> lookup (clock s) (cache s) (KP p) = None ->
         step c s (OTake p t) = (s, mkObs RDbErr 0 1)) /\
@@ -389,6 +438,7 @@ Lemma db_error_lemma c s :
      (forall p w keys, step c s (OExec p w keys) = (s, mkObs RDbErr 0 0))).
 Proof.
   split; [intro o; apply dberr_keeps_state|].
+  split; [intro o; apply dberr_keeps_data|].
   intro F. split; [|split]; intros.
   - apply dberr_returned_take; auto.
   - apply dberr_returned_qri; auto.
@@ -403,7 +453,7 @@ Lemma cache_error_lemma c s :
      eval e = CPk p -> key_down c s (KP p) = true -> step c s (OQri u t) = (s, mkObs RCErr 0 0)) /\
   (forall p u v t, key_down c s (KP p) = true -> step c s (OSet p u v t) = (s, mkObs RCErr 0 0)) /\
   (forall p u v d, key_down c s (KP p) = true -> step c s (OSetEx p u v d) = (s, mkObs RCErr 0 0)) /\
-  (forall o, oret (snd (step c s o)) = RCErr -> cfault s <> []).
+  (forall o, is_mid o = false -> oret (snd (step c s o)) = RCErr -> cfault s <> []).
 Proof.
   repeat split; intros.
   - apply cerr_take; auto.
@@ -471,15 +521,41 @@ Qed.
 Lemma typed_sub d d' : well_typed d -> (forall k e, find k d' = Some e -> find k d = Some e) -> well_typed d'.
 Proof. intros W S k e H. apply W. apply S. exact H. Qed.
 
+Lemma load_primary_typed c s p t : well_typed (cache s) -> well_typed (cache (fst (load_primary c s p t))).
+Proof.
+  intro W. unfold load_primary. destruct (dbFault s); auto.
+  destruct (db_get p (db s)) as [[u v]|]; (destruct (key_down c s (KP p)); auto).
+  - destruct (ttl_ok (expiry_of c) t); auto. cbn [fst set_cache cache]. apply typed_put; cbn; auto.
+  - destruct (ttl_ok (nf_of c) t); auto. cbn [fst set_cache cache]. apply typed_put; cbn; auto.
+Qed.
+
 Lemma take_primary_typed c s p t : well_typed (cache s) -> well_typed (cache (fst (take_primary c s p t))).
 Proof.
   intro W. unfold take_primary.
   destruct (key_down c s (KP p)); auto.
   destruct (lookup (clock s) (cache s) (KP p)) as [[[u v|q|] x]|]; auto.
-  destruct (dbFault s); auto.
-  destruct (db_get p (db s)) as [[u v]|].
-  - destruct (ttl_ok (expiry_of c) t); auto. cbn [fst set_cache cache]. apply typed_put; cbn; auto.
-  - destruct (ttl_ok (nf_of c) t); auto. cbn [fst set_cache cache]. apply typed_put; cbn; auto.
+  apply load_primary_typed; auto.
+Qed.
+
+Lemma take_mid_typed c s p t n : well_typed (cache s) -> well_typed (cache (fst (take_mid c s p t n))).
+Proof.
+  intro W. unfold take_mid. destruct (key_down c s (KP p)); auto.
+  destruct (lookup (clock s) (cache s) (KP p)).
+  - apply take_primary_typed; auto.
+  - apply (load_primary_typed c (fail_node s n)); auto.
+Qed.
+
+Lemma load_index_typed c s u t : well_typed (cache s) -> well_typed (cache (fst (load_index c s u t))).
+Proof.
+  intro W. unfold load_index. destruct (dbFault s); auto.
+  destruct (db_by_u u (db s)) as [[p [u' v]]|].
+  - destruct (key_down c s (KP p)); auto.
+    destruct (ttl_ok (expiry_of c) t); auto.
+    destruct (key_down c s (KU u)); cbn [fst set_cache cache].
+    + apply typed_put; cbn; auto.
+    + apply typed_put; [apply typed_put|]; cbn; auto.
+  - destruct (key_down c s (KU u)); auto.
+    destruct (ttl_ok (nf_of c) t); auto. cbn [fst set_cache cache]. apply typed_put; cbn; auto.
 Qed.
 
 Lemma step_typed c s o : well_typed (cache s) -> well_typed (cache (fst (step c s o))).
@@ -490,12 +566,7 @@ Proof.
     destruct (key_down c s (KU u)); auto.
     destruct (lookup (clock s) (cache s) (KU u)) as [[[a b|q|] x]|]; auto.
     + apply take_primary_typed; auto.
-    + destruct (dbFault s); auto.
-      destruct (db_by_u u (db s)) as [[p [u' v]]|].
-      * destruct (key_down c s (KP p)); auto.
-        destruct (ttl_ok (expiry_of c) t); auto. cbn [fst set_cache cache].
-        apply typed_put; [apply typed_put|]; cbn; auto.
-      * destruct (ttl_ok (nf_of c) t); auto. cbn [fst set_cache cache]. apply typed_put; cbn; auto.
+    + apply load_index_typed; auto.
   - unfold get_primary. destruct (key_down c s (KP p)); auto.
     destruct (lookup (clock s) (cache s) (KP p)) as [[[a b|q|] x]|]; auto.
   - unfold exec. destruct (dbFault s); auto. destruct w as [[u v]|].
@@ -511,6 +582,12 @@ Proof.
   - exact W.
   - exact W.
   - cbn [fst]. eapply typed_sub; [exact W|]. apply iter_tick_sub.
+  - apply take_mid_typed; auto.
+  - unfold query_index_mid.
+    destruct (key_down c s (KU u)); auto.
+    destruct (lookup (clock s) (cache s) (KU u)) as [[[a b|q|] x]|]; auto.
+    + apply take_mid_typed; auto.
+    + apply (load_index_typed c (fail_node s n)); auto.
 Qed.
 
 Lemma final_typed c ops : forall s, well_typed (cache s) -> well_typed (cache (final c s ops)).
@@ -524,25 +601,44 @@ Proof.
   assert (W : well_typed (cache (final c (init rows) ops))).
   { apply final_typed. intros k e H. cbn in H. discriminate. }
   set (s := final c (init rows) ops) in *.
+  assert (L0 : forall s0 p t, oret (snd (load_primary c s0 p t)) <> RIllTyped).
+  { intros s0 p t. unfold load_primary. split_step; cbn; discriminate. }
+  assert (L1 : forall s0 u t, oret (snd (load_index c s0 u t)) <> RIllTyped).
+  { intros s0 u t. unfold load_index. split_step; cbn; discriminate. }
+  assert (NP : forall p a x, lookup (clock s) (cache s) (KP p) = Some (mkEntry (CPk a) x) -> False).
+  { intros p a x L. apply lookup_some in L. destruct L as [L _]. apply W in L. exact L. }
+  assert (NU : forall u a b x, lookup (clock s) (cache s) (KU u) = Some (mkEntry (CRow a b) x) -> False).
+  { intros u a b x L. apply lookup_some in L. destruct L as [L _]. apply W in L. exact L. }
   assert (T : forall p t, oret (snd (take_primary c s p t)) <> RIllTyped).
   { intros p t. unfold take_primary.
     destruct (key_down c s (KP p)); [cbn; discriminate|].
     destruct (lookup (clock s) (cache s) (KP p)) as [[[a b|q|] x]|] eqn:L; try (cbn; discriminate).
-    - apply lookup_some in L. destruct L as [L _]. apply W in L. cbn in L. contradiction.
-    - split_step; cbn; discriminate. }
+    - exfalso. eapply NP; eauto.
+    - apply L0. }
+  assert (TM : forall p t n, oret (snd (take_mid c s p t n)) <> RIllTyped).
+  { intros p t n. unfold take_mid.
+    destruct (key_down c s (KP p)); [cbn; discriminate|].
+    destruct (lookup (clock s) (cache s) (KP p)); [apply T | apply L0]. }
   destruct o; cbn [step]; try (cbn; discriminate).
   - apply T.
   - unfold query_index.
     destruct (key_down c s (KU u)); [cbn; discriminate|].
     destruct (lookup (clock s) (cache s) (KU u)) as [[[a b|q|] x]|] eqn:L; try (cbn; discriminate).
-    + apply lookup_some in L. destruct L as [L _]. apply W in L. cbn in L. contradiction.
+    + exfalso. eapply NU; eauto.
     + apply T.
-    + split_step; cbn; discriminate.
+    + apply L1.
   - unfold get_primary.
     destruct (key_down c s (KP p)); [cbn; discriminate|].
     destruct (lookup (clock s) (cache s) (KP p)) as [[[a b|q|] x]|] eqn:L; try (cbn; discriminate).
-    apply lookup_some in L. destruct L as [L _]. apply W in L. cbn in L. contradiction.
+    exfalso. eapply NP; eauto.
   - unfold exec. split_step; cbn; discriminate.
   - unfold set_primary. split_step; cbn; discriminate.
   - unfold set_primary. split_step; cbn; discriminate.
+  - apply TM.
+  - unfold query_index_mid.
+    destruct (key_down c s (KU u)); [cbn; discriminate|].
+    destruct (lookup (clock s) (cache s) (KU u)) as [[[a b|q|] x]|] eqn:L; try (cbn; discriminate).
+    + exfalso. eapply NU; eauto.
+    + apply TM.
+    + apply L1.
 Qed.
